@@ -325,6 +325,95 @@ namespace io {
         }
     };
 
+    // The defects of today's Bzip2Decompressor behind an extracted private helper, a switch over the status, an early return and a
+    // named condition: the rules run on the inlined normal form, so they must report X2 (feof only) and N1 (empty chunk after the
+    // reopen) here exactly as on the in-line spelling, and accept the BZ2_bzRead error handling done by the switch (E1).
+    class BadHelperBzip2Decompressor final : public Decompressor {
+        FILE* m_file;
+        BZFILE* m_bzfile = nullptr;
+        bool m_stream_end = false;
+
+        void handle_stream_end() {
+            if (feof(m_file)) {
+                m_stream_end = true;
+                return;
+            }
+            int bzerror = BZ_OK;
+            void* unused = nullptr;
+            int num_unused = 0;
+            ::BZ2_bzReadGetUnused(&bzerror, m_bzfile, &unused, &num_unused);
+            if (bzerror != BZ_OK) {
+                throw bzip2_error{"get unused failed", bzerror};
+            }
+            const bool more = num_unused != 0;
+            if (!more) {
+                m_stream_end = true;
+                return;
+            }
+            std::string unused_data{static_cast<const char*>(unused), static_cast<std::string::size_type>(num_unused)};
+            ::BZ2_bzReadClose(&bzerror, m_bzfile);
+            if (bzerror != BZ_OK) {
+                throw bzip2_error{"read close failed", bzerror};
+            }
+            m_bzfile = ::BZ2_bzReadOpen(&bzerror, m_file, 0, 0, &*unused_data.begin(), static_cast<int>(unused_data.size()));
+            if (!m_bzfile) {
+                throw bzip2_error{"read open failed", bzerror};
+            }
+        }
+
+        int pull(std::string& out, int& status) {
+            return ::BZ2_bzRead(&status, m_bzfile, &*out.begin(), static_cast<int>(out.size()));
+        }
+
+    public:
+        explicit BadHelperBzip2Decompressor(FILE* file) : m_file(file) {
+            int bzerror = BZ_OK;
+            m_bzfile = ::BZ2_bzReadOpen(&bzerror, m_file, 0, 0, nullptr, 0);
+            if (!m_bzfile) {
+                throw bzip2_error{"read open failed", bzerror};
+            }
+        }
+
+        std::string read() override {
+            std::string buffer;
+            if (m_stream_end) {
+                return buffer;
+            }
+            buffer.resize(input_buffer_size);
+            int bzerror = BZ_OK;
+            const int nread = pull(buffer, bzerror);
+            switch (bzerror) {
+            case BZ_OK:
+                break;
+            case BZ_STREAM_END:
+                handle_stream_end();
+                break;
+            default:
+                throw bzip2_error{"read failed", bzerror};
+            }
+            const auto produced = static_cast<std::string::size_type>(nread);
+            buffer.resize(produced);
+            return buffer;
+        }
+
+        void close() override {
+            release();
+        }
+
+    private:
+        void release() {
+            if (m_bzfile) {
+                BZFILE* const handle = m_bzfile;
+                m_bzfile = nullptr;
+                int bzerror = BZ_OK;
+                ::BZ2_bzReadClose(&bzerror, handle);
+                if (bzerror != BZ_OK) {
+                    throw bzip2_error{"read close failed", bzerror};
+                }
+            }
+        }
+    };
+
     // X1 / X2 / N1: single stream only, BZ_OK with zero output returns an empty chunk (today's shape of the buffer decompressors)
     class BadBzip2BufferDecompressor final : public Decompressor {
         const char* m_buffer;
@@ -428,6 +517,8 @@ void c09_positive_driver(FILE* f, const char* p, std::size_t n) {
     osmium::io::BadBzip2Decompressor d{f};
     osmium::io::BadReopenBzip2Decompressor e{f};
     osmium::io::BadBzip2BufferDecompressor g{p, n};
+    osmium::io::BadHelperBzip2Decompressor h{f};
+    (void)h.read();
     osmium::io::detail::string_queue q;
     osmium::io::detail::ReadThreadManager m{a, q};
     m.run_in_thread();
